@@ -15,8 +15,8 @@
 EXTENDS Naturals, Integers, Sequences, FiniteSets, TLC, Wire, WireCodec, SampleTable
 
 Leaf(boxBytes) == [t |-> Slice(boxBytes, 5, 4), body |-> [i \in 1..(Len(boxBytes) - 8) |-> boxBytes[i + 8]],
-                   kids |-> <<>>, leaf |-> TRUE, large |-> FALSE, spare |-> <<>>]
-Cont(t, pre, kids) == [t |-> t, body |-> pre, kids |-> kids, leaf |-> FALSE, large |-> FALSE, spare |-> <<>>]
+                   kids |-> <<>>, leaf |-> TRUE, large |-> FALSE, spare |-> <<>>, eof |-> FALSE]
+Cont(t, pre, kids) == [t |-> t, body |-> pre, kids |-> kids, leaf |-> FALSE, large |-> FALSE, spare |-> <<>>, eof |-> FALSE]
 
 RECURSIVE NodeSize(_)
 NodeSize(n) == (IF n.large THEN 16 ELSE 8) + Len(n.body) + Len(n.spare)
@@ -24,7 +24,9 @@ NodeSize(n) == (IF n.large THEN 16 ELSE 8) + Len(n.body) + Len(n.spare)
 
 RECURSIVE EncNode(_)
 EncNode(n) == LET payload == n.body \o Flat([i \in 1..Len(n.kids) |-> EncNode(n.kids[i])]) \o n.spare IN
-              IF n.large THEN BoxLarge(n.t, payload) ELSE Box(n.t, payload)
+              \* eof: size field 0, "the box extends to the end of the file" (only the last top-level box)
+              IF n.eof THEN <<0, 0, 0, 0>> \o n.t \o payload
+              ELSE IF n.large THEN BoxLarge(n.t, payload) ELSE Box(n.t, payload)
 
 \* a file is a pseudo node whose kids are the top-level boxes
 EncFile(root) == Flat([i \in 1..Len(root.kids) |-> EncNode(root.kids[i])])
@@ -42,6 +44,7 @@ ApplyHere(n, op) ==
     [] op.op = "unk"   -> [n EXCEPT !.kids = InsAt(@, op.at, [Leaf(Box(op.cc, Fill(op.len, 90))) EXCEPT !.large = op.big])]
     [] op.op = "swap"  -> [n EXCEPT !.kids = Swap(@, op.i, op.j)]
     [] op.op = "large" -> [n EXCEPT !.large = TRUE]
+    [] op.op = "eof"   -> [n EXCEPT !.eof = TRUE]
     [] op.op = "spare" -> [n EXCEPT !.spare = Fill(op.len, 165)]
 
 RECURSIVE ApplyAt(_, _, _)
@@ -104,7 +107,7 @@ EntryNode(kind) ==
   LET b == EntryOf(kind)  f == EntryFixed(kind) IN
   IF f = 0 THEN Leaf(b)
   ELSE [ t |-> Slice(b, 5, 4), body |-> Slice(b, 9, f), kids |-> <<Leaf([i \in 1..(Len(b) - 8 - f) |-> b[i + 8 + f]])>>,
-         leaf |-> FALSE, large |-> FALSE, spare |-> <<>> ]
+         leaf |-> FALSE, large |-> FALSE, spare |-> <<>>, eof |-> FALSE ]
 HandlerOfKind(kind) == CASE kind = "avc" -> VIDE [] kind = "aac" -> SOUN [] kind = "ttxt" -> SBTL
 UND == <<117, 110, 100>>
 
@@ -168,7 +171,7 @@ PlainTree(m, offs) ==
       moov == Cont(MOOV, <<>>, <<Leaf(EncMvhd(MvhdOf(m.mts, mdur, n + 1)))>> \o traks \o m.extra)
       cb   == [t \in 1..n |-> AllChunkBytes(t, m.tracks[t].tbl)]
       mdat == Leaf(Box(MDAT, Flat([i \in 1..Len(m.order) |-> cb[m.order[i][1]][m.order[i][2]]])))
-  IN [t |-> <<>>, body |-> <<>>, kids |-> <<FtypNode, moov, mdat>>, leaf |-> FALSE, large |-> FALSE, spare |-> <<>>]
+  IN [t |-> <<>>, body |-> <<>>, kids |-> <<FtypNode, moov, mdat>>, leaf |-> FALSE, large |-> FALSE, spare |-> <<>>, eof |-> FALSE]
 
 \* index of the mdat box among the top-level boxes of a laid-out tree
 MdatIndex(root) == CHOOSE i \in 1..Len(root.kids) : root.kids[i].t = MDAT
@@ -301,7 +304,7 @@ FragKids(fm, pl) ==
          mdat == Leaf(Box(MDAT, Flat([j \in 1..Len(fm.frags[i]) |-> RunBytes(fm, i, j)])))
      IN IF MdatFirst(fm) THEN <<mdat, moof>> ELSE <<moof, mdat>>])
 
-Root(kids) == [t |-> <<>>, body |-> <<>>, kids |-> kids, leaf |-> FALSE, large |-> FALSE, spare |-> <<>>]
+Root(kids) == [t |-> <<>>, body |-> <<>>, kids |-> kids, leaf |-> FALSE, large |-> FALSE, spare |-> <<>>, eof |-> FALSE]
 
 \* placements from a laid-out stream: the i-th moof box and the first mdat after it (top level may
 \* contain other boxes in between, e.g. free boxes inserted by layout operations)
